@@ -39,7 +39,10 @@ var c25Kinds = []c25Kind{
 type capSender struct{ tgs [][]byte }
 
 func (c *capSender) Run(context.Context) {}
-func (c *capSender) Send(tg []byte)      { c.tgs = append(c.tgs, append([]byte{}, tg...)) }
+// Send keeps the slice it is given, like the real replication.Sender, which only queues it: a transaction
+// group is read when it is transmitted, not when it is handed over (a serializer that re-used its buffer
+// would show up as a wrong transaction on the replica)
+func (c *capSender) Send(tg []byte) { c.tgs = append(c.tgs, tg) }
 
 func init() {
 	mc.Def(mc.Check{
